@@ -301,11 +301,11 @@ func (s *Schema) WF() bool {
 	case KFloat:
 		return s.W == 4 || s.W == 8
 	case KByteArr:
-		return codeWf(s.Code) && boundsOk(s.Min, s.Max, s.N)
+		return codeWf(s.Code)
 	case KSlice, KArray:
-		return s.Elem.WF() && (!(s.Rules.Lex && s.Rules.NoDups) || s.Elem.NonEmpty())
+		return s.Elem.WF()
 	case KMap:
-		return s.Key.IsKey() && s.Key.WF() && s.Elem.WF() && (!s.Rules.NoDups || s.Key.NonEmpty())
+		return s.Key.IsKey() && s.Key.WF() && s.Elem.WF()
 	case KStruct:
 		if !codeWf(s.Code) {
 			return false
